@@ -139,29 +139,9 @@ func C17(ctx *core.Ctx) {
 	// the counter: the package-level uint64 passed to atomic.AddUint64 in the op-id generator
 	// the generator by role: the one function of the package that returns a
 	// string and draws it from sync/atomic.AddUint64 (its name is not part of the API)
-	var gen *ssa.Function
-	{
-		var cands []*ssa.Function
-		for _, fn := range r.Fns {
-			res := fn.Signature.Results()
-			if res.Len() != 1 || fn.Parent() != nil {
-				continue
-			}
-			if b, ok := res.At(0).Type().Underlying().(*types.Basic); !ok || (b.Kind() != types.String && b.Kind() != types.Uint64) {
-				continue
-			}
-			for _, c := range ssax.Calls(fn) {
-				if c.FullName() == "sync/atomic.AddUint64" {
-					cands = append(cands, fn)
-					break
-				}
-			}
-		}
-		if len(cands) == 1 {
-			gen = cands[0]
-		} else {
-			ctx.Unresolved("C17.R1", "op-id generator", sprintf("expected one string- or uint64-returning function drawing from atomic.AddUint64, found %d", len(cands)))
-		}
+	gen, nGen := opIDGenerator(r)
+	if gen == nil {
+		ctx.Unresolved("C17.R1", "op-id generator", sprintf("expected one string- or uint64-returning function drawing from atomic.AddUint64, found %d", nGen))
 	}
 	var counter *ssa.Global
 	genRecvIdx := -1 // the counter is the generator's parameter #genRecvIdx (method on a named counter type)
@@ -346,137 +326,8 @@ func C17(ctx *core.Ctx) {
 		}
 	}
 
-	// ---- R4 fresh op id on every construction ------------------------------------
 	opidConst := constString(r, "opIDHeader")
-	isFreshOpID := func(v ssa.Value) bool {
-		c, ok := CallValue(v)
-		return ok && c.Static != nil && c.Static == gen
-	}
-	type site interface {
-		ssa.Value
-		ssa.Instruction
-	}
-	// unexported helper constructors hand the obligation to their callers
-	deferred := map[*ssa.Function]bool{}
-	for _, fn := range r.Fns {
-		ssax.Instrs(fn, func(in ssa.Instruction) {
-			var al site
-			if a, ok := in.(*ssa.Alloc); ok && ssax.TypeNamed(a.Type(), "", "FContextImpl") {
-				al = a
-			}
-			if c, ok := in.(*ssa.Call); ok && ssax.TypeNamed(c.Type(), "", "FContextImpl") {
-				if f := c.Call.StaticCallee(); f != nil && allocatorFns[f] && !token.IsExported(f.Name()) && f.Signature.Recv() == nil {
-					al = c
-					deferred[f] = true
-				}
-			}
-			if al == nil {
-				return
-			}
-			if allocatorFns[fn] && !token.IsExported(fn.Name()) && fn.Signature.Recv() == nil {
-				// the helper's own allocation: decided at its call sites (there must be some)
-				nCalls := 0
-				for _, g := range r.Fns {
-					for _, c := range ssax.Calls(g) {
-						if c.Static == fn {
-							nCalls++
-						}
-					}
-				}
-				if nCalls > 0 {
-					ctx.Discharge("C17.R4", ssax.Name(fn)+" › helper constructor: op id decided at its call sites", r.IPos(al), sprintf("%d call site(s)", nCalls))
-					return
-				}
-			}
-			fname := ssax.Name(fn)
-			// maps that are (going to be) the requestHeaders of this object
-			isReqMap := func(m ssa.Value) bool {
-				m = ssax.Strip(m)
-				if base, ok := LoadedFrom(m, "requestHeaders"); ok && ssax.Strip(base) == ssa.Value(al) {
-					return true
-				}
-				if cc, isCall := ssa.Value(al).(*ssa.Call); isCall {
-					// al is a helper constructor call: m is the argument it stores as the request headers
-					if a := ctorFieldArg(cc, "requestHeaders"); a != nil && ssax.Strip(a) == m {
-						return true
-					}
-				}
-				if refs := m.Referrers(); refs != nil {
-					for _, u := range *refs {
-						if st, ok := u.(*ssa.Store); ok && ssax.Strip(st.Val) == m {
-							if fa, ok := st.Addr.(*ssa.FieldAddr); ok && ssax.Strip(fa.X) == ssa.Value(al) {
-								fs := fa.X.Type().Underlying().(*types.Pointer).Elem().Underlying().(*types.Struct)
-								if fs.Field(fa.Field).Name() == "requestHeaders" {
-									return true
-								}
-							}
-						}
-					}
-				}
-				return false
-			}
-			setsOpID := func(i ssa.Instruction) bool {
-				switch x := i.(type) {
-				case *ssa.MapUpdate:
-					if k, ok := ConstString(x.Key); ok && k == opidConst && isFreshOpID(x.Value) && isReqMap(x.Map) {
-						return true
-					}
-				case *ssa.Call:
-					c, _ := ssax.AsCall(x)
-					if c.ShortName() == "AddRequestHeader" {
-						args := c.Args()
-						if len(args) == 3 && ssax.Strip(args[0]) == ssa.Value(al) {
-							if k, ok := ConstString(args[1]); ok && k == opidConst && isFreshOpID(args[2]) {
-								return true
-							}
-						}
-					}
-				}
-				return false
-			}
-			returnsIt := func(i ssa.Instruction) bool {
-				ret, ok := i.(*ssa.Return)
-				if !ok {
-					return false
-				}
-				for _, v := range ret.Results {
-					if ssax.Strip(ResolveLocal(v)) == ssa.Value(al) {
-						return true
-					}
-				}
-				return false
-			}
-			// the op id may be put into the map literal before the struct is allocated:
-			// accept an assignment that dominates the alloc as well.
-			domSet := false
-			ssax.Instrs(fn, func(i ssa.Instruction) {
-				if setsOpID(i) && ssax.Dominates(i, al) {
-					domSet = true
-				}
-			})
-			anyReturn := false
-			ssax.Instrs(fn, func(i ssa.Instruction) {
-				if returnsIt(i) {
-					anyReturn = true
-				}
-			})
-			if !anyReturn {
-				ctx.Violate("C17.R4", fname+" › FContextImpl allocation is not returned directly", r.IPos(al), "context allocated but handed out in an unrecognised way: cannot establish the fresh op id")
-				return
-			}
-			var bad []*ssa.BasicBlock
-			if !domSet {
-				bad = ssax.PathFrom(fn, al, returnsIt, setsOpID)
-			}
-			if bad == nil {
-				ctx.Discharge("C17.R4", fname+" › new FContextImpl gets a fresh op id", r.IPos(al), "requestHeaders[opIDHeader] = getNextOpID() on every path to the return")
-			} else {
-				ctx.Violate("C17.R4", fname+" › new FContextImpl gets a fresh op id", r.IPos(al),
-					"a context is returned without a fresh op id from the atomic counter (it keeps the wire/source id or none): ids collide between contexts",
-					ssax.PathString(r.V.Fset, bad)...)
-			}
-		})
-	}
+	freshOpIDs(ctx, r, gen, opidConst, "C17.R4")
 
 	c17OpIDNotOverwritten(ctx, r, gen, opidConst)
 
@@ -734,4 +585,165 @@ func ctorFieldArg(call *ssa.Call, field string) ssa.Value {
 		out = v
 	})
 	return out
+}
+
+// freshOpIDs: every FContextImpl that is constructed gets
+// requestHeaders[_opid] = <generator>() on every path before it is returned
+// (C17.R4; also the basis of C01's correlation, run there as C01.R11).
+func freshOpIDs(ctx *core.Ctx, r *RT, gen *ssa.Function, opidConst string, rule string) {
+	// ---- R4 fresh op id on every construction ------------------------------------
+	isFreshOpID := func(v ssa.Value) bool {
+		c, ok := CallValue(v)
+		return ok && c.Static != nil && c.Static == gen
+	}
+	type site interface {
+		ssa.Value
+		ssa.Instruction
+	}
+	// unexported helper constructors hand the obligation to their callers
+	deferred := map[*ssa.Function]bool{}
+	for _, fn := range r.Fns {
+		ssax.Instrs(fn, func(in ssa.Instruction) {
+			var al site
+			if a, ok := in.(*ssa.Alloc); ok && ssax.TypeNamed(a.Type(), "", "FContextImpl") {
+				al = a
+			}
+			if c, ok := in.(*ssa.Call); ok && ssax.TypeNamed(c.Type(), "", "FContextImpl") {
+				if f := c.Call.StaticCallee(); f != nil && allocatorFns[f] && !token.IsExported(f.Name()) && f.Signature.Recv() == nil {
+					al = c
+					deferred[f] = true
+				}
+			}
+			if al == nil {
+				return
+			}
+			if allocatorFns[fn] && !token.IsExported(fn.Name()) && fn.Signature.Recv() == nil {
+				// the helper's own allocation: decided at its call sites (there must be some)
+				nCalls := 0
+				for _, g := range r.Fns {
+					for _, c := range ssax.Calls(g) {
+						if c.Static == fn {
+							nCalls++
+						}
+					}
+				}
+				if nCalls > 0 {
+					ctx.Discharge(rule, ssax.Name(fn)+" › helper constructor: op id decided at its call sites", r.IPos(al), sprintf("%d call site(s)", nCalls))
+					return
+				}
+			}
+			fname := ssax.Name(fn)
+			// maps that are (going to be) the requestHeaders of this object
+			isReqMap := func(m ssa.Value) bool {
+				m = ssax.Strip(m)
+				if base, ok := LoadedFrom(m, "requestHeaders"); ok && ssax.Strip(base) == ssa.Value(al) {
+					return true
+				}
+				if cc, isCall := ssa.Value(al).(*ssa.Call); isCall {
+					// al is a helper constructor call: m is the argument it stores as the request headers
+					if a := ctorFieldArg(cc, "requestHeaders"); a != nil && ssax.Strip(a) == m {
+						return true
+					}
+				}
+				if refs := m.Referrers(); refs != nil {
+					for _, u := range *refs {
+						if st, ok := u.(*ssa.Store); ok && ssax.Strip(st.Val) == m {
+							if fa, ok := st.Addr.(*ssa.FieldAddr); ok && ssax.Strip(fa.X) == ssa.Value(al) {
+								fs := fa.X.Type().Underlying().(*types.Pointer).Elem().Underlying().(*types.Struct)
+								if fs.Field(fa.Field).Name() == "requestHeaders" {
+									return true
+								}
+							}
+						}
+					}
+				}
+				return false
+			}
+			setsOpID := func(i ssa.Instruction) bool {
+				switch x := i.(type) {
+				case *ssa.MapUpdate:
+					if k, ok := ConstString(x.Key); ok && k == opidConst && isFreshOpID(x.Value) && isReqMap(x.Map) {
+						return true
+					}
+				case *ssa.Call:
+					c, _ := ssax.AsCall(x)
+					if c.ShortName() == "AddRequestHeader" {
+						args := c.Args()
+						if len(args) == 3 && ssax.Strip(args[0]) == ssa.Value(al) {
+							if k, ok := ConstString(args[1]); ok && k == opidConst && isFreshOpID(args[2]) {
+								return true
+							}
+						}
+					}
+				}
+				return false
+			}
+			returnsIt := func(i ssa.Instruction) bool {
+				ret, ok := i.(*ssa.Return)
+				if !ok {
+					return false
+				}
+				for _, v := range ret.Results {
+					if ssax.Strip(ResolveLocal(v)) == ssa.Value(al) {
+						return true
+					}
+				}
+				return false
+			}
+			// the op id may be put into the map literal before the struct is allocated:
+			// accept an assignment that dominates the alloc as well.
+			domSet := false
+			ssax.Instrs(fn, func(i ssa.Instruction) {
+				if setsOpID(i) && ssax.Dominates(i, al) {
+					domSet = true
+				}
+			})
+			anyReturn := false
+			ssax.Instrs(fn, func(i ssa.Instruction) {
+				if returnsIt(i) {
+					anyReturn = true
+				}
+			})
+			if !anyReturn {
+				ctx.Violate(rule, fname+" › FContextImpl allocation is not returned directly", r.IPos(al), "context allocated but handed out in an unrecognised way: cannot establish the fresh op id")
+				return
+			}
+			var bad []*ssa.BasicBlock
+			if !domSet {
+				bad = ssax.PathFrom(fn, al, returnsIt, setsOpID)
+			}
+			if bad == nil {
+				ctx.Discharge(rule, fname+" › new FContextImpl gets a fresh op id", r.IPos(al), "requestHeaders[opIDHeader] = getNextOpID() on every path to the return")
+			} else {
+				ctx.Violate(rule, fname+" › new FContextImpl gets a fresh op id", r.IPos(al),
+					"a context is returned without a fresh op id from the atomic counter (it keeps the wire/source id or none): ids collide between contexts",
+					ssax.PathString(r.V.Fset, bad)...)
+			}
+		})
+	}
+}
+
+// opIDGenerator: the op-id generator by role — the one function of the package
+// that returns a string (or uint64) and draws it from sync/atomic.AddUint64.
+func opIDGenerator(r *RT) (*ssa.Function, int) {
+	var cands []*ssa.Function
+	for _, fn := range r.Fns {
+		res := fn.Signature.Results()
+		if res.Len() != 1 || fn.Parent() != nil {
+			continue
+		}
+		if b, ok := res.At(0).Type().Underlying().(*types.Basic); !ok || (b.Kind() != types.String && b.Kind() != types.Uint64) {
+			continue
+		}
+		for _, c := range ssax.Calls(fn) {
+			if c.FullName() == "sync/atomic.AddUint64" {
+				cands = append(cands, fn)
+				break
+			}
+		}
+	}
+	if len(cands) == 1 {
+		return cands[0], 1
+	}
+	return nil, len(cands)
 }
